@@ -22,7 +22,7 @@ type dbgRec struct {
 func (g *Gen) allocFresh(pfx string) string {
 	r := g.newConst(pfx, "Int")
 	al := g.sv("$alloc", "(Array Int Bool)")
-	g.assume(fmt.Sprintf("(and (not (= %s 0)) (not (select %s %s)) (= (subtag %s) 0))", r, al, r, r))
+	g.assume(fmt.Sprintf("(and (not (= %s 0)) (not (select %s %s)) (= (subtag %s) 0) (= (rootof %s) %s))", r, al, r, r, r, r))
 	g.setSV("$alloc", "(Array Int Bool)", fmt.Sprintf("(store %s %s true)", al, r))
 	return r
 }
@@ -144,7 +144,7 @@ func (g *Gen) run() {
 	entry := copyState(g.cur)
 	g.entryState = entry
 	if g.con != nil {
-		for _, c := range g.con.Requires {
+		for _, c := range append(append([]*Clause{}, g.con.Requires...), g.con.Preserves...) {
 			env := g.fnEnv(nil)
 			t, err := g.eval(c.Expr, env)
 			if err != nil {
@@ -1139,9 +1139,24 @@ func (g *Gen) makeInterface(x *ssa.MakeInterface) {
 	case "Str":
 		g.define(x, fmt.Sprintf("(boxS %d %s)", tag, xt.S))
 	default:
+		if strings.HasPrefix(xt.Sort, "S_") {
+			g.declBox(xt.Sort)
+			g.define(x, fmt.Sprintf("(box!%s %d %s)", xt.Sort, tag, xt.S))
+			return
+		}
 		t := g.define(x, "")
 		g.assume(fmt.Sprintf("(and (not (= %s 0)) (= (tagof %s) %d))", t.S, t.S, tag))
 	}
+}
+
+// declBox declares box/unbox for a struct datatype sort (same axioms as boxI).
+func (g *Gen) declBox(srt string) {
+	if _, ok := g.decl["box!"+srt]; ok {
+		return
+	}
+	g.declFun("box!"+srt, "(Int "+srt+") Int")
+	g.declFun("unbox!"+srt, "(Int) "+srt)
+	g.defs = append(g.defs, fmt.Sprintf("(assert (forall ((t Int) (v %s)) (! (and (= (tagof (box!%s t v)) t) (= (unbox!%s (box!%s t v)) v) (not (= (box!%s t v) 0))) :pattern ((box!%s t v)))))", srt, srt, srt, srt, srt, srt))
 }
 
 func (g *Gen) typeAssert(x *ssa.TypeAssert) {
@@ -1155,11 +1170,14 @@ func (g *Gen) typeAssert(x *ssa.TypeAssert) {
 	} else {
 		tag := g.P.typeID(x.AssertedType)
 		ok = fmt.Sprintf("(and (not (= %s 0)) (= (tagof %s) %d))", xt.S, xt.S, tag)
-		switch g.sortOf(x.AssertedType) {
-		case "Int":
+		switch ss := g.sortOf(x.AssertedType); {
+		case ss == "Int":
 			val = fmt.Sprintf("(unboxI %s)", xt.S)
-		case "Str":
+		case ss == "Str":
 			val = fmt.Sprintf("(unboxS %s)", xt.S)
+		case strings.HasPrefix(ss, "S_"):
+			g.declBox(ss)
+			val = fmt.Sprintf("(unbox!%s %s)", ss, xt.S)
 		default:
 			val = ""
 		}
@@ -1335,6 +1353,14 @@ func (g *Gen) ret(x *ssa.Return) {
 			continue
 		}
 		g.oblige("post", c.Label, t.S, c.Where, c.Text, c.Props)
+	}
+	for _, c := range g.con.Preserves {
+		t, err := g.eval(c.Expr, env)
+		if err != nil {
+			g.bindFail(c, err)
+			continue
+		}
+		g.oblige("preserves", c.Label, t.S, c.Where, c.Text, c.Props)
 	}
 	// lock discipline at exit: every lock named in the contract is released
 	for _, ls := range g.con.Locks {
